@@ -25,5 +25,7 @@ echo "== existing suite WITH change (must pass)"
 for m in . fuzz tests; do (cd $m && go test -vet=off -count=1 ./... 2>&1 | grep -v "no test files" | grep -v "^ok" ); done
 echo "== checks on the changed tree"
 cd /verif
-for p in "$@"; do VERIF_REPO=$wt timeout 3000 ./check $p 2>&1 | grep -E "^(VIOLATION|KNOWN|MACHINERY|C[0-9][0-9] )" | cut -c1-220 | head -8; done
+sb=/tmp/seedbuild_$name; rm -rf $sb; mkdir -p $sb; cp build/gosym $sb/ 2>/dev/null
+for p in "$@"; do VERIF_REPO=$wt VERIF_BUILD=$sb VERIF_OUT=$sb timeout 3000 ./check $p 2>&1 | grep -E "^(VIOLATION|KNOWN|MACHINERY|C[0-9][0-9] )" | cut -c1-220 | head -8; done
 git -C /repo worktree remove --force $wt
+mkdir -p /tmp/seedreplays/$name; cp -r $sb/replays/* /tmp/seedreplays/$name/ 2>/dev/null; rm -rf $sb
